@@ -27,22 +27,45 @@ Definition gen_bp : bparams :=
   mkBP 1 0 (Z.of_nat bell_idx) (Z.of_nat gen_keep_len) (Z.of_nat gen_OK_FIELDS_K) gen_bell_paulis.
 """
 
-# (name, model variant 0=W 1=P 2=M, hardware, api call, post routine?, sequential?, extras to try)
-CONFIGS = [
-    ("wait_all", 0, "generic", "recv_keep", False, False, (0, 1, 2)),
-    ("post", 1, "generic", "recv_keep", True, False, (0, 1)),
-    ("seq", 1, "generic", "recv_keep", True, True, (0, 1)),
-    ("rsp", 0, "generic", "recv_rsp", False, False, (0, 1)),
-    ("mem", 2, "nv", "recv_keep", False, False, (0,)),
-    ("post", 1, "nv", "recv_keep", True, False, (0,)),
-    ("seq", 1, "nv", "recv_keep", True, True, (0,)),
-]
-CREATE_CONFIGS = [
-    ("wait_all", 0, "generic", "create_keep", False, False, (0, 1)),
-    ("post", 1, "generic", "create_keep", True, False, (1,)),
-    ("seq", 1, "generic", "create_keep", True, True, (1,)),
-    ("mem", 2, "nv", "create_keep", False, False, (0,)),
-]
+# request shapes: (name, api call, post routine?, sequential?)
+SHAPES = [("plain", "recv_keep", False, False), ("post", "recv_keep", True, False), ("seq", "recv_keep", True, True)]
+RSP = ("rsp", "recv_rsp", False, False)
+# sets of live qubits before the request: (number allocated, indices freed again) — the second kind leaves
+# HOLES in the used virtual IDs (e.g. (3, [1]): IDs 0 and 2 are held, the pairs get 1 and 3)
+LIVE_FULL = [(0, []), (1, []), (2, []), (3, [1]), (4, [0, 2]), (3, [0])]
+LIVE = [(0, []), (1, []), (3, [1]), (4, [1, 2])]
+# hardware configurations: (hardware, max_qubits or None = large enough).  "nvswap" = generic hardware config
+# with the NV transpiler selected (the Builder swaps the config for an NV one); generic with ONE qubit is a
+# non-NV device with a single communication qubit
+HARDWARE = [("generic", 1), ("generic", 2), ("nv", 2), ("nv", 3), ("nv", None), ("nvswap", 2), ("nvswap", 3)]
+
+
+def feasible(case):
+    alloc, freed = live_of(case)
+    live = alloc - len(freed)
+    m = eff_maxq(case)
+    if case["hardware"] != "generic" and alloc:
+        return False          # live memory qubits on NV: relocation of the communication qubit is C09's subject
+    if alloc > m:
+        return False
+    if case["seq"]:
+        return live + 1 <= m
+    return case["n"] + live <= m
+
+
+def mk_case(shape, hw, maxq, live, n, tup, expect=True, qlink=None, **more):
+    name, call, post, seq = shape
+    c = dict(cfg=name, hardware=hw, call=call, post=post, seq=seq, live=[live[0], list(live[1])], n=n,
+             bells=list(tup), expect=expect)
+    if maxq:
+        c["maxq"] = maxq
+    if qlink:
+        c["qlink"] = qlink
+    c.update(more)
+    if not feasible(c):
+        return None
+    c["variant"] = model_variant(c)
+    return c
 
 
 # ---------------------------------------------------------------- numerics (oracle for parts a, d)
@@ -177,24 +200,60 @@ def pair_overlap(ex, lk, rk, name):
     return float(np.real(np.vdot(v, rho @ v)))
 
 
+def live_of(case):
+    """(number of qubits allocated before the request, indices of those freed again before it)"""
+    lv = case.get("live")
+    if lv is None:
+        return int(case.get("extra", 0)), []
+    return int(lv[0]), list(lv[1])
+
+
+def eff_maxq(case):
+    if case.get("maxq"):
+        return int(case["maxq"])
+    if case["hardware"] == "generic":
+        return max(2, case["n"] + live_of(case)[0] + 1)
+    return max(case["n"], 2)
+
+
+def single_comm(case):
+    """one communication qubit: NV config, generic config swapped for NV by the Builder (NV transpiler
+    selected), or a generic device with a single qubit"""
+    return case["hardware"] in ("nv", "nvswap") or eff_maxq(case) == 1
+
+
+def model_variant(case):
+    """which emitted-code variant the builder must choose: 0 wait-all loop, 1 post routine / sequential,
+    2 wait-correct-move-to-memory"""
+    if case["call"].startswith("recv_rsp"):
+        return 0
+    if case["post"]:
+        return 1
+    return 2 if single_comm(case) else 0
+
+
 def run_keep(repo, ns, case):
-    """case: dict(cfg=name, variant, hardware, call, post, seq, extra, n, bells=[values], expect, qlink)
+    """case: dict(cfg, variant, hardware generic|nv|nvswap, maxq (optional), call, post, seq,
+    live=[alloc, [freed indices]] (or extra=k), n, bells=[values], expect, qlink None|"enum"|"int")
     Returns dict(trace, ids, fid=[per pair], error)."""
     from sdk_pipeline import Pipeline
     qc = ns.qc
     n, bells = case["n"], case["bells"]
     hw = case["hardware"]
-    maxq = (n + 3) if hw == "generic" else max(n, 2)
-    pipe = Pipeline(repo, hardware=hw, executor="sv", max_qubits=maxq, seed=case.get("seed", 0))
+    pipe = Pipeline(repo, hardware="nv" if hw == "nv" else "generic", use_transpiler=hw in ("nv", "nvswap"),
+                    executor="sv", max_qubits=eff_maxq(case), seed=case.get("seed", 0))
     sock = pipe.epr_socket("Bob")
     recv = case["call"].startswith("recv")
     resps = []
+    fmt = case.get("qlink")
+    fmt = "enum" if fmt is True else fmt
     for i, bv in enumerate(bells):
-        if case.get("qlink"):
+        if fmt:
             import qlink_interface as ql
+            qb = ql.BellState[qc.BellState(bv).name]
             resps.append(ql.ResCreateAndKeep(create_id=3, directionality_flag=1 if recv else 0, sequence_number=i,
                                              purpose_id=0, remote_node_id=1, goodness=40 + i,
-                                             bell_state=ql.BellState[qc.BellState(bv).name], logical_qubit_id=10 + i,
+                                             bell_state=qb if fmt == "enum" else qb.value, logical_qubit_id=10 + i,
                                              time_of_goodness=50 + i))
         else:
             resps.append(qc.LinkLayerOKTypeK(qc.ReturnType.OK_K, 3, 10 + i, 1 if recv else 0, i, 0, 1, 40 + i, 50 + i,
@@ -219,7 +278,12 @@ def run_keep(repo, ns, case):
     try:
         from netqasm.sdk.qubit import Qubit
         with pipe.connection(epr_sockets=[sock]) as conn:
-            extra = [Qubit(conn) for _ in range(case["extra"])]
+            alloc, freed = live_of(case)
+            extra = [Qubit(conn) for _ in range(alloc)]
+            freed_ids = [extra[k].qubit_id for k in freed]
+            for k in freed:          # leave holes in the set of used virtual IDs
+                extra[k].measure()
+            out["live_ids"] = [q.qubit_id for k, q in enumerate(extra) if k not in freed]
             fn = getattr(sock, case["call"])
             accepted = inspect.signature(fn).parameters
             kw = dict(number=n)
@@ -248,7 +312,11 @@ def run_keep(repo, ns, case):
                     out["fid"][i] = pair_fidelity(ex, lk, rk)
                     out["same"][i] = pair_overlap(ex, lk, rk, qc.BellState(bells[i]).name)
             out["array_ids"] = None
-            out["trace"] = canon_trace(pipe.gate_trace())
+            tr = canon_trace(pipe.gate_trace())
+            # the harness's own measurements that freed the hole qubits come first (before the request)
+            if tr[:len(freed)] != [("meas", freed_ids[k], 0, 0) for k in range(len(freed))]:
+                raise RuntimeError(f"harness: unexpected events while preparing the live qubits: {tr[:len(freed)]}")
+            out["trace"] = tr[len(freed):]
             ex.on_meas = orig_on_meas
             del extra
     except Exception as e:  # noqa
@@ -260,7 +328,7 @@ def run_keep(repo, ns, case):
 
 def model_ids(case, res):
     """the qubit-ID array the builder hands to the controller: where each pair arrives"""
-    if case["hardware"] == "nv" and case["call"] == "recv_keep" or case["hardware"] == "nv" and case["call"] == "create_keep":
+    if single_comm(case) and not case["call"].startswith("recv_rsp"):
         return [0] * case["n"]
     return list(res["ids"])
 
@@ -293,7 +361,8 @@ def strip(case):
 def judge(ctx, ns, table, case, res, tcases, tmeta):
     """oracle on one run + material for the model correspondence"""
     phi_plus = ns.qc.BellState.PHI_PLUS.value
-    replay = dict(case=strip(case), ids=res["ids"], trace=res["trace"], fidelity=res["fid"], error=res["error"])
+    replay = dict(case=strip(case), ids=res["ids"], live_ids=res.get("live_ids"), max_qubits=eff_maxq(case),
+                  trace=res["trace"], fidelity=res["fid"], error=res["error"])
     if res["error"]:
         ctx.violation("the EPR operation raised", replay, key=None)
         return
@@ -372,17 +441,23 @@ def variant_cases(ctx, found, bvals, quick):
         if kind == "measure":
             continue
         for expect in (True, False):
-            for extra in (0, 1):
+            for live in ((0, []), (3, [1])):
                 for n in (1, 2) if (quick or kind == "context") else (1, 2, 3):
                     tl = list(itertools.product(bvals, repeat=n))
                     if n == 3:
                         tl = ctx.rng.sample(tl, 16)
                     for tup in tl:
                         c = dict(cfg="api:" + name, variant=0, hardware="generic", call=name, post=False, seq=False,
-                                 extra=extra, n=n, bells=list(tup), expect=expect, kind=kind)
+                                 live=[live[0], list(live[1])], n=n, bells=list(tup), expect=expect, kind=kind)
                         if kind == "context":
                             c.update(no_model=True, n=1, bells=[tup[0]])
                         cases.append(c)
+            if kind == "keep":
+                # the same variant on single-communication-qubit devices (generic with one qubit, NV, NV by swap)
+                for hw, maxq, n in (("generic", 1, 1), ("nv", 2, 2), ("nvswap", 2, 2)):
+                    for tup in itertools.product(bvals, repeat=n):
+                        cases.append(dict(cfg="api:" + name, variant=2, hardware=hw, maxq=maxq, call=name, post=False,
+                                          seq=False, live=[0, []], n=n, bells=list(tup), expect=expect, kind=kind))
     return cases
 
 
@@ -395,11 +470,13 @@ def measure_variant_runs(ctx, ns, found, quick):
     for name, kind, params in found:
         if kind != "measure":
             continue
-        for expect in (True, False):
+        for expect, fmt in itertools.product((True, False), ("native", "qlink_enum", "qlink_int")):
             for n in (1, 2):
                 for tup in itertools.product([m.value for m in qc.BellState], repeat=n):
-                    for outs in itertools.product((0, 1), repeat=n):
-                        case = dict(call=name, kw=dict(number=n, expect_phi_plus=expect), node=1, sock=0, own_node=0)
+                    allouts = list(itertools.product((0, 1), repeat=n))
+                    for outs in (allouts if (n == 1 or not quick) else [ctx.rng.choice(allouts)]):
+                        case = dict(call=name, kw=dict(number=n, expect_phi_plus=expect), node=1, sock=0, own_node=0,
+                                    resp_format=fmt)
                         resp = []
                         for i in range(n):
                             d = dict(type=qc.ReturnType.OK_M.value, create_id=7 + i, measurement_outcome=outs[i],
@@ -409,9 +486,10 @@ def measure_variant_runs(ctx, ns, found, quick):
                         case["resp"] = resp
                         res = ec.run_case(ctx.repo, ns, case)
                         nrun += 1
-                        ctx.note_case(("api:" + name, tuple(tup), outs, expect),
+                        ctx.note_case(("api:" + name, tuple(tup), outs, expect, fmt),
                                       nontrivial=any(b != qc.BellState.PHI_PLUS.value for b in tup))
-                        replay = dict(variant=name, expect_phi_plus=expect, bells=[qc.BellState(b).name for b in tup],
+                        replay = dict(variant=name, expect_phi_plus=expect, response_format=fmt,
+                                      bells=[qc.BellState(b).name for b in tup],
                                       raw_outcomes=list(outs), error=res.error,
                                       observed=[(h.get("measurement_outcome"), h.get("post_process"))
                                                 for h in (res.handles or {}).get("meas", [])])
@@ -444,10 +522,14 @@ def run(ctx):
 
     t0 = time.time()
     ctx.rule = ("real recv_keep/recv_rsp/create_keep through the in-process pipeline with the state-vector executor and "
-                "scripted K responses: n = 1..4 x Bell-state tuples (quick: all tuples for n <= 2, 6/5 sampled for n = 3/4; "
-                "thorough: all 4+16+64+256) x variants (wait-all loop, post routine, sequential, move-to-memory, rsp) x "
-                "generic / NV x 0..2 extra live qubits shifting the IDs; expectation off and the creator role on all "
-                "tuples n <= 2 (+ sampled); responses also as qlink-interface 1.0 objects; additionally EVERY public "
+                "scripted K responses: n = 1..4 x Bell-state tuples (quick: all tuples for n <= 2, sampled for n = 3/4; "
+                "thorough: all 4+16+64+256) x request shapes (no post routine, post routine, sequential, rsp) x sets of live "
+                "qubits before the request (0..2 extra qubits shifting the IDs AND sets with holes: allocate 3-4, free some in "
+                "the middle) on generic hardware; x hardware configurations (generic with 1 and 2 qubits, NV with 2, 3, n "
+                "qubits, generic config with the NV transpiler selected) - the model variant (wait-all loop / post-routine / "
+                "move-to-memory) is derived from 'one communication qubit?'; expectation off and the creator role on all "
+                "tuples n <= 2 (+ sampled); responses as netqasm tuples and as qlink-interface 1.0 objects with the Bell state "
+                "as enum member and as plain int; additionally EVERY public "
                 "EPRSocket method whose signature takes expect_phi_plus (discovered by inspect.signature, fail-closed) x "
                 "expectation on/off x all Bell tuples n <= 2 (thorough: + 16 sampled n = 3) x 0/1 extra qubit, the "
                 "measure-directly variant x all tuples x all raw outcomes.  non-trivial = at least one "
@@ -505,28 +587,55 @@ def run(ctx):
         for fn in sorted(os.listdir(corpus_dir)):
             if fn.endswith(".json"):
                 cases.append(json.load(open(os.path.join(corpus_dir, fn)))["case"])
-    for (name, variant, hw, call, post, seq, extras) in CONFIGS:
-        for extra in extras:
+    def add(c):
+        if c is not None:
+            cases.append(c)
+
+    def some(n, k3=6, k4=5):
+        allt = list(itertools.product(bvals, repeat=n))
+        if n <= 2 or not quick:
+            return allt
+        return ctx.rng.sample(allt, k3 if n == 3 else k4)
+
+    # (i) generic hardware with room: every request shape x live-qubit sets (shifted IDs and IDs with holes)
+    for shape in SHAPES + [RSP]:
+        for live in (LIVE_FULL if shape[0] == "plain" else LIVE):
             for n in (1, 2, 3, 4):
-                for tup in tuples(ctx, bvals, n, quick):
-                    cases.append(dict(cfg=name, variant=variant, hardware=hw, call=call, post=post, seq=seq, extra=extra,
-                                      n=n, bells=list(tup), expect=True))
-    # expectation off / creator role / qlink 1.0 responses
-    for (name, variant, hw, call, post, seq, extras) in CONFIGS:
+                for tup in some(n):
+                    add(mk_case(shape, "generic", None, live, n, tup))
+    # (ii) hardware configurations
+    for hw, maxq in HARDWARE:
+        for shape in SHAPES:
+            lives = [(0, [])] + ([(1, [])] if (hw, maxq) == ("generic", 2) else [])
+            for live in lives:
+                for n in (1, 2, 3, 4):
+                    for tup in some(n, 4, 3):
+                        add(mk_case(shape, hw, maxq, live, n, tup))
+    # (iii) expectation off / creator role
+    for shape in SHAPES + [RSP]:
         for n in (1, 2) if quick else (1, 2, 3):
-            for tup in (tuples(ctx, bvals, n, quick) if n < 3 else ctx.rng.sample(list(itertools.product(bvals, repeat=3)), 16)):
-                if call == "recv_keep" or call == "recv_rsp":
-                    cases.append(dict(cfg=name, variant=variant, hardware=hw, call=call, post=post, seq=seq,
-                                      extra=extras[-1], n=n, bells=list(tup), expect=False))
-    for (name, variant, hw, call, post, seq, extras) in CREATE_CONFIGS:
+            tl = some(n) if n < 3 else ctx.rng.sample(list(itertools.product(bvals, repeat=3)), 16)
+            for tup in tl:
+                add(mk_case(shape, "generic", None, (3, [1]), n, tup, expect=False))
+                if shape is not RSP:
+                    add(mk_case(shape, "nv", None, (0, []), n, tup, expect=False))
+                    if n <= 2:
+                        add(mk_case(shape, "generic", 1, (0, []), n, tup, expect=False))
+                        add(mk_case(shape, "nvswap", 3, (0, []), n, tup, expect=False))
+    for shape in SHAPES:
+        cshape = (shape[0], "create_keep", shape[2], shape[3])
         for n in (1, 2):
-            for tup in tuples(ctx, bvals, n, quick):
-                cases.append(dict(cfg=name, variant=variant, hardware=hw, call=call, post=post, seq=seq, extra=extras[-1],
-                                  n=n, bells=list(tup), expect=True))
-    for (name, variant, hw, call, post, seq, extras) in CONFIGS[:3]:
-        for tup in tuples(ctx, bvals, 1, quick) + (tuples(ctx, bvals, 2, quick) if variant else []):
-            cases.append(dict(cfg=name, variant=variant, hardware=hw, call=call, post=post, seq=seq, extra=0,
-                              n=len(tup), bells=list(tup), expect=True, qlink=True))
+            for tup in some(n):
+                add(mk_case(cshape, "generic", None, (1, []), n, tup))
+                add(mk_case(cshape, "nv", None, (0, []), n, tup))
+                add(mk_case(cshape, "generic", 1, (0, []), n, tup))
+    # (iv) the same responses as qlink-interface 1.0 objects, Bell state as enum member and as plain int
+    for fmt in ("enum", "int"):
+        for shape in SHAPES:
+            for hw in ("generic", "nv"):
+                for n in (1, 2):
+                    for tup in some(n):
+                        add(mk_case(shape, hw, None, (0, []), n, tup, qlink=fmt))
     found, public = discover_expect_variants(ctx)
     ctx.coverage["expect_phi_plus_variants"] = [f[0] for f in found]
     ctx.coverage["public_epr_socket_methods"] = public
@@ -535,11 +644,15 @@ def run(ctx):
     dist["api:measure-directly runs"] = nmeas
     for k, case in enumerate(cases):
         case.setdefault("seed", k)
+        case["variant"] = model_variant(case)
         res = run_keep(ctx.repo, ns, case)
-        key = (case["cfg"], case["hardware"], case["call"], case["extra"], tuple(case["bells"]), case["expect"],
-               bool(case.get("qlink")))
+        key = (case["cfg"], case["hardware"], case.get("maxq"), case["call"], str(live_of(case)), tuple(case["bells"]),
+               case["expect"], str(case.get("qlink")))
         ctx.note_case(key, nontrivial=any(bv != phi_plus for bv in case["bells"]))
-        tag = f"{case['cfg']}/{case['hardware']}/{case['call']}" + ("" if case["expect"] else "/expect-off")
+        tag = (f"{case['cfg']}/{case['hardware']}{case.get('maxq') or ''}/{case['call']}" +
+               ("" if case["expect"] else "/expect-off") + (f"/qlink-{case['qlink']}" if case.get("qlink") else ""))
+        hk = "live" + str(live_of(case))
+        dist[hk] = dist.get(hk, 0) + 1
         dist[tag] = dist.get(tag, 0) + 1
         dist["n=%d" % case["n"]] = dist.get("n=%d" % case["n"], 0) + 1
         judge(ctx, ns, table, case, res, tcases, tmeta)
